@@ -1,0 +1,38 @@
+//go:build verif
+
+// Verification hook for property C13 (/verif): exports construction of the HTTP cache and the
+// custom-command cache, and readTar, for in-process fault exploration.
+// Add-only; nothing here is compiled into a normal build.
+
+package cache
+
+import (
+	"io"
+	"time"
+
+	"github.com/thought-machine/please/src/cli"
+	"github.com/thought-machine/please/src/core"
+)
+
+// VerifNewHTTPCache runs newHTTPCache on a default configuration with the given URL.
+func VerifNewHTTPCache(url string, writable bool, retries int, timeout time.Duration) (core.Cache, error) {
+	config := core.DefaultConfiguration()
+	if err := config.Cache.HTTPURL.UnmarshalFlag(url); err != nil {
+		return nil, err
+	}
+	config.Cache.HTTPWriteable = writable
+	config.Cache.HTTPRetry = retries
+	config.Cache.HTTPTimeout = cli.Duration(timeout)
+	return newHTTPCache(config), nil
+}
+
+// VerifNewCmdCache runs newCmdCache with the given store and retrieve commands.
+func VerifNewCmdCache(storeCommand, retrieveCommand string) core.Cache {
+	config := core.DefaultConfiguration()
+	config.Cache.StoreCommand = storeCommand
+	config.Cache.RetrieveCommand = retrieveCommand
+	return newCmdCache(config)
+}
+
+// VerifReadTar is readTar (shared by the HTTP and the command cache retrieve paths).
+func VerifReadTar(r io.Reader) (bool, error) { return readTar(r) }
